@@ -17,8 +17,8 @@ namespace etl {
 template <typename RandomIt, typename Compare>
 constexpr auto exchange_sort(RandomIt first, RandomIt last, Compare comp) -> void
 {
-    for (auto i = first; i < etl::prev(last); ++i) {
-        for (auto j = etl::next(i); j < last; ++j) {
+    for (auto i = first; i != last; ++i) {
+        for (auto j = etl::next(i); j != last; ++j) {
             if (comp(*j, *i)) {
                 etl::iter_swap(i, j);
             }
